@@ -75,7 +75,8 @@ def cases(tier, seed):
                avq=pick([None, "quantized_bits(8,0,1)", "quantized_bits(4,0,1)", "quantized_po2(4)"]),
                xin=(ri(1, 2), ri(4, 8), ri(4, 8), ri(1, 3)))
     elif kind == "gavgpool":
-      c.update(avq=pick([None, "quantized_bits(8,0,1)", "quantized_po2(4)"]), xin=(ri(1, 2), ri(2, 6), ri(2, 6), ri(1, 3)))
+      c.update(avq=pick([None, "quantized_bits(8,0,1)", "quantized_po2(4)"]), xin=(ri(1, 2), ri(2, 6), ri(2, 6), ri(1, 3)),
+               df=pick(["channels_last", "channels_last", "channels_first", None]))      # set on the layer, global default untouched
     elif kind == "scaleshift":
       c.update(xin=(ri(1, 2), ri(2, 6), ri(1, 3)))
     if kind in ("conv2d", "dw", "sep2d", "avgpool"):
@@ -174,7 +175,8 @@ def build(c, rs):
     ql = qk.QAveragePooling2D(sp(c["pool"]), strides=sp(c["s"]), padding=c["pad"],
                               average_quantizer=c["avq"], activation=c["aq"])
   elif kind == "gavgpool":
-    ql = qk.QGlobalAveragePooling2D(average_quantizer=c["avq"], activation=c["aq"])
+    ql = qk.QGlobalAveragePooling2D(average_quantizer=c["avq"], activation=c["aq"],
+                                    **({"data_format": c["df"]} if c.get("df") else {}))
   elif kind == "scaleshift":
     ql = qk.QScaleShift(weight_quantizer=c["wq"], bias_quantizer=c["bq"], use_bias=c["use_bias"], activation=c["aq"],
                         weight_initializer=wi(), bias_initializer="zeros")
@@ -271,10 +273,11 @@ def run_case(c, ctx):
         r = pl(xt * area) * K.cast_to_floatx(qs[0](1.0 / area))
       r = ql.activation(r) if ql.activation is not None else r
     elif kind == "gavgpool":
+      axes = [2, 3] if c.get("df") == "channels_first" else [1, 2]      # the layer's own data_format
       if qs[0] is None:
-        r = tf.reduce_mean(xt, axis=[1, 2])
+        r = tf.reduce_mean(xt, axis=axes)
       else:
-        r = tf.reduce_sum(xt, axis=[1, 2]) * qs[0](1.0 / (x.shape[1] * x.shape[2]))
+        r = tf.reduce_sum(xt, axis=axes) * qs[0](1.0 / (x.shape[axes[0]] * x.shape[axes[1]]))
       r = ql.activation(r) if ql.activation is not None else r
     elif kind == "scaleshift":
       Wl = qw(qs, ws)
